@@ -68,6 +68,13 @@ func eachInstr(fn *ssa.Function, f func(ssa.Instruction)) {
 	}
 }
 
+// eachInstrRegion visits fn, its closures and the same-package functions it calls statically.
+func eachInstrRegion(fn *ssa.Function, f func(ssa.Instruction)) {
+	for _, g := range region(fn) {
+		eachInstr(g, f)
+	}
+}
+
 func findInstrs(fn *ssa.Function, pred func(ssa.Instruction) bool) []ssa.Instruction {
 	var out []ssa.Instruction
 	eachInstr(fn, func(i ssa.Instruction) {
@@ -944,4 +951,9 @@ func branchOn(v ssa.Value) (onTrue, onFalse *ssa.BasicBlock, ifi *ssa.If) {
 		}
 	}
 	return nil, nil, nil
+}
+
+func isNilConst(v ssa.Value) bool {
+	k, ok := v.(*ssa.Const)
+	return ok && k.Value == nil
 }
